@@ -1,10 +1,12 @@
 (* Props/C09.v — C09: with sync=always an acknowledged write survives power loss, merges included.
-   Proved here: the ordering facts about fsync in the model's traces on which the argument rests,
-   and recoverability at operation boundaries.  The theorem over all power-cut images inside a merge
-   (C09_durable in DESIGN.md section 8) is not yet proved; `bin/check C09` enumerates power-cut images
-   (per file any length between its last fsync and its current length, creations and removals
-   persistent) from recorded real traces and opens each with the real code. *)
-From BC Require Import Store.Engine Store.Log Store.Cons Store.Inv Store.Refine Store.Merge Store.Theorems.
+   Proved for the model, in the failure model of the property (per file independently any suffix
+   written after that file's last completed fsync may be missing; creations and removals are
+   persistent; the failure may strike at every boundary between calls): every power image of the
+   trace of every ready script under sync=always — merge passes included — recovers to the map after
+   the first n operations (theorems 4 and 5).  `bin/check C09` ties this to the code: it enumerates
+   power-cut images of recorded REAL traces and opens each with the real code. *)
+From BC Require Import Store.Engine Store.Log Store.Cons Store.Inv Store.Refine Store.Merge Store.Theorems
+  Store.Crash Store.CrashScript Store.CrashMerge Store.Power.
 Open Scope N_scope.
 
 (* 1. With sync=always, a set or delete appends one record and forces the file it appended to,
@@ -61,6 +63,46 @@ Proof.
   destruct (hints_optional s clk HI) as (s1 & t1 & _ & _ & H1 & _ & HI1 & _ & Ha & _). eauto.
 Qed.
 Print Assumptions C09_boundary_recoverable.
+
+(* 4. THE property.  [pstep] runs the calls on a file system that also tracks the durable length of
+      every file; [pimage st img]: [img] keeps of every file a prefix at least that long;
+      [power_image_of st0 t img]: [img] is such an image of the state after some prefix of [t].
+      [img_ok_p img m]: what the scanner reads from [img] — hint files up to the first entry that points
+      past the end of its data file — is a directory that opens to the map [m].
+      Under sync=always every power image of every ready script recovers to the state after the first
+      n operations ... *)
+Theorem C09_durable : forall c, c_sync c = true -> forall ops s st0,
+  Inv s -> run_ready c s ops -> synced st0 -> rep (fst st0) (s_dir s) -> trace_wf (snd (run c s ops)) ->
+  (exists st1, prun st0 (snd (run c s ops)) = Some st1 /\ synced st1 /\ rep (fst st1) (s_dir (fst (fst (run c s ops))))) /\
+  forall img, power_image_of st0 (snd (run c s ops)) img ->
+    exists n, (n <= length ops)%nat /\ img_ok_p img (abs (state_after c s ops n)).
+Proof. exact power_safe_script. Qed.
+Print Assumptions C09_durable.
+
+(* 5. ... sharply: a power failure during operation [o], after [ops1] returned, keeps all of [ops1]
+      (and [o] entirely or not at all).  For a merge pass [o] the two maps are equal: a merge never
+      removes the only durable copy of a value. *)
+Theorem C09_acknowledged_survives : forall c ops1 o st0, c_sync c = true ->
+  run_ready c init (ops1 ++ [o]) -> synced st0 -> rep (fst st0) (s_dir init) -> trace_wf (snd (run c init (ops1 ++ [o]))) ->
+  let s1 := fst (fst (run c init ops1)) in
+  exists st1, prun st0 (snd (run c init ops1)) = Some st1 /\
+    forall img, power_image_of st1 (snd (step c s1 o)) img ->
+      img_ok_p img (abs s1) \/ img_ok_p img (abs (fst (fst (step c s1 o)))).
+Proof. exact power_during_op. Qed.
+Print Assumptions C09_acknowledged_survives.
+
+Theorem C09_merge_pass_power_safe : forall c s ord, Inv s -> merge_ready c s ord -> step_power_safe c s (OMerge ord).
+Proof. exact merge_power_safe. Qed.
+Print Assumptions C09_merge_pass_power_safe.
+
+(* the model's hint loader does what [img_ok_p] assumes: hints after the first one that points past
+   the end of the data file are not loaded (the D9 repair) *)
+Theorem C09_hint_loader_stops : forall fid L L' hs extra ix,
+  Forall (fun h => h_pos h + h_len h <= L) hs -> Forall (fun h => h_pos h + h_len h <= L') hs ->
+  match extra with [] => True | h :: _ => L < h_pos h + h_len h end ->
+  load_hints fid L (hs ++ extra) ix = load_hints fid L' hs ix.
+Proof. exact load_hints_extra. Qed.
+Print Assumptions C09_hint_loader_stops.
 
 (* Non-vacuity / the merge ordering on a concrete run: every merge output is fsynced before the
    first unlink, and nothing is written after it. *)
